@@ -60,7 +60,7 @@ Apply(i) ==
                                                             ELSE ApiFx(CCur, i.g, i.kind, i.name, i.prog, i.tmo))
     [] i.op = "reply"   -> CCommit(ReplyFx(CCur, i.id, i.mk, i.a))
     [] i.op = "sched"   -> CCommit(ScheduleFx(CCur, i.id, i.mk, i.a, i.ms))
-    [] i.op = "advance" -> \E tie \in {"reply", "timer"}, ord \in {"lo", "hi"} : CCommit(CAdvanceFx(CCur, i.ms, tie, ord))
+    [] i.op = "advance" -> \E win \in SUBSET ({sched[j].id : j \in DOMAIN sched} \cup {-1}), ord \in {"lo", "hi"} : CCommit(CAdvanceWinFx(CCur, i.ms, win, ord))
     [] i.op = "cancel"  -> CCommit(CancelCtxFx(CCur, i.g, IF i.mode = "" THEN "killnowait" ELSE i.mode))
     [] i.op = "inv"     -> CCommit(InvocationRpFx(CCur, i.reg, i.inv, i.tmo, i.prog))
     [] i.op = "sendprog" -> CCommit(SendProgFx(CCur, i.inv))
